@@ -172,6 +172,10 @@ func (t *T) TimeAgo(tag string, maxAge time.Duration) (time.Time, time.Duration)
 // Time returns an arbitrary instant (1 ns .. 2^62 ns after the Unix epoch).
 func (t *T) Time(tag string) time.Time { return time.Unix(0, t.next("int64", tag)) }
 
+// AnyTime returns an arbitrary instant before or after the Unix epoch
+// (|ns| < 2^62, not the epoch itself).
+func (t *T) AnyTime(tag string) time.Time { return time.Unix(0, t.next("int64", tag)) }
+
 // Advance lets d pass on the model clock (native: the real clock cannot be
 // moved; harnesses keep margins instead).
 func (t *T) Advance(d time.Duration) {}
